@@ -12,6 +12,7 @@ Anything not recognised is returned as a problem string (the tie is then broken;
 Output: coq/Gen/GenParLoops.v and coq/Gen/genparloops.json (same content as data, for the runner).
 """
 import os, re, sys, json
+SERVES = ("C05",)   # properties whose check reports this translator's problems (lib/gencoq.py, core.Check.proofs)
 
 HERE = os.path.dirname(os.path.abspath(__file__))
 sys.path.insert(0, os.path.join(os.path.dirname(HERE), "lib"))
@@ -786,12 +787,21 @@ def progressbar_empty(repo, defines):
     o = m.end() - 1; c = match_paren(body, o, "{", "}")
     return nows(body[o + 1:c]) == ""
 
+def _nocast(t):
+    """static_cast<size_t>(e) only widens the index arithmetic; the slot model works in unbounded naturals, so it reads it as e"""
+    while True:
+        k = t.find("static_cast<size_t>(")
+        if k < 0: return t
+        o = k + len("static_cast<size_t>"); c = match_paren(t, o, "(", ")")
+        inner = t[o + 1:c]
+        t = t[:k] + (inner if re.fullmatch(r"[A-Za-z_][A-Za-z0-9_]*(\(\))?", inner) else "(" + inner + ")") + t[c + 1:]
+
 def accessor_formulas(repo):
     """the address formulas the model assumes for SymMatrix / Matrix / Vector operator()"""
     out = {}
-    t = nows(strip_comments(open(os.path.join(repo, "OpenMEEGMaths", "include", "symmatrix.h"), errors="replace").read()))
+    t = _nocast(nows(strip_comments(open(os.path.join(repo, "OpenMEEGMaths", "include", "symmatrix.h"), errors="replace").read())))
     out["symmatrix_pidx"] = t.count("returndata()[(i<=j)?i+j*(j+1)/2:j+i*(i+1)/2];") == 2
-    t = nows(strip_comments(open(os.path.join(repo, "OpenMEEGMaths", "include", "matrix.h"), errors="replace").read()))
+    t = _nocast(nows(strip_comments(open(os.path.join(repo, "OpenMEEGMaths", "include", "matrix.h"), errors="replace").read())))
     out["matrix_colmajor"] = t.count("om_assert(i<nlin()&&j<ncol());returnvalue[i+nlin()*j];") == 2
     t = nows(strip_comments(open(os.path.join(repo, "OpenMEEGMaths", "include", "vector.h"), errors="replace").read()))
     out["vector_identity"] = t.count("om_assert(i<nlin());returnvalue[i];") == 2
